@@ -105,7 +105,21 @@ PRESTATS = [None, {'special': 123},
             {'insertions': 5, 'deletions': 7, 'lines changed': 12,
              'special': 1}]
 OTHER_META = [{'path': 'f'}, {'path': 'f', 'revision': {'old': 'a'},
-                              'z': [1, 2]}]
+                              'z': [1, 2]},
+              # the metadata keys the specification defines for a file: none
+              # of them says anything about how many lines the diff changes
+              {'path': {'old': 'a', 'new': 'b'}, 'op': 'move'},
+              {'path': {'old': 'a', 'new': 'b'}, 'op': 'copy',
+               'revision': {'old': '1', 'new': '2'}},
+              {'path': 'f', 'op': 'delete'},
+              {'path': 'f', 'op': 'create', 'unix file mode': '0100755'},
+              {'path': 'f', 'op': 'move-modify', 'type': 'symlink',
+               'symlink target': {'old': 'x', 'new': 'y'}},
+              {'path': 'f', 'op': 'modify', 'type': 'file',
+               'mimetype': 'application/octet-stream',
+               'unix file mode': {'old': '0100644', 'new': '0100755'}},
+              {'path': 'f', 'type': 'directory', 'op': None,
+               'diff': 'none', 'binary': True, 'lines changed': 0}]
 
 
 def file_attrs(vi, ri, kind, pre, other):
